@@ -744,6 +744,20 @@ func runC19(rc *RunCtx) {
 		}
 		nonce := uint64(r.Intn(5))
 		steps := rc.Pick(260, 900)
+		// entries are keyed by domain only: one and the same messenger address (and one and the same remote token, local
+		// token, nonce) registered under several domains are several independent entries
+		for pass := 0; pass < 2; pass++ {
+			for _, d := range Domains {
+				if _, ex := e.M.Messengers[d]; ex {
+					op(&ct.MsgRemoveRemoteTokenMessenger{From: e.M.Owner, DomainId: d}, "messenger-remove")
+				}
+				op(&ct.MsgAddRemoteTokenMessenger{From: e.M.Owner, DomainId: d, Address: Messenger(0x77, pass)}, "messenger-add-shared-address")
+				if _, ex := e.M.Pairs[pairKey{d, string(Token(4))}]; !ex {
+					op(&ct.MsgLinkTokenPair{From: e.M.TC, RemoteDomain: d, RemoteToken: Token(4), LocalToken: "uusdc"}, "pair-add-shared-token")
+				}
+			}
+			e.FullQueryCheck(nil, []uint64{1, 2, 3})
+		}
 		for i := 0; i < steps; i++ {
 			switch r.Intn(11) {
 			case 0, 1:
